@@ -46,10 +46,11 @@ func Need(id string, variants ...string) { needs[id] = append(needs[id], variant
 
 // VariantBinary returns the path of the vcheck binary built with the variant.
 func VariantBinary(variant string) string {
+	suffix := os.Getenv("VERIF_BIN_SUFFIX") // set by ./check when VERIF_REPO selects a scratch checkout
 	if variant == "" || variant == "plain" {
-		return filepath.Join(VerifDir, "bin", "vcheck")
+		return filepath.Join(VerifDir, "bin", "vcheck"+suffix)
 	}
-	return filepath.Join(VerifDir, "bin", "vcheck-"+variant)
+	return filepath.Join(VerifDir, "bin", "vcheck-"+variant+suffix)
 }
 
 // Register is called from the init() of an engine package.
